@@ -493,6 +493,10 @@ def process_chunk(prop, st, binp, asan_bin, seed, tier, a, b, workdir, agg, lock
                     desc = ev.get('desc', '')
             if not reproduced:
                 key = 'nonrepro-' + key
+            # optional root-cause markers: configuration fragments of the case description named by the stage
+            marks = [m_ for m_ in st.get('crash_markers', []) if m_ in desc]
+            if marks:
+                key += '+' + ','.join(marks)
             with lock:
                 agg['viols'].append(dict(ev='viol', case=k, key='crash:' + key, detail='worker died (rc=%s) in case %d [%s]; reproduced=%s' % (
                     use['rc'], k, desc, reproduced), _stage=st, stderr=errtxt[-6000:]))
